@@ -97,8 +97,8 @@ fn json_str(s: &str) -> String {
 
 struct FormattingLogger;
 impl log::Log for FormattingLogger {
-    fn enabled(&self, _: &log::Metadata<'_>) -> bool {
-        true
+    fn enabled(&self, m: &log::Metadata<'_>) -> bool {
+        m.level() <= log::max_level()
     }
     fn log(&self, record: &log::Record<'_>) {
         // Format the record so that the code inside info!/debug! arguments really runs.
@@ -110,14 +110,29 @@ impl log::Log for FormattingLogger {
 static LOGGER: FormattingLogger = FormattingLogger;
 
 fn main() {
+    // With logging on (the debug pass) everything runs on a plain spawned thread without a name, as a worker of an
+    // application would; with FDX_NOLOG (the release pass) on the main thread.
+    if std::env::var("FDX_NOLOG").is_err() && std::env::var("FDX_MAIN_THREAD").is_err() {
+        let h = std::thread::Builder::new().stack_size(1 << 30).spawn(real_main).expect("spawn");
+        let code = h.join().unwrap_or(3);
+        std::process::exit(code);
+    }
+    std::process::exit(real_main());
+}
+
+fn real_main() -> i32 {
     if std::env::var("FDX_VERBOSE").is_err() {
         std::panic::set_hook(Box::new(|_| {}));
     }
     // Logging fully on (every argument of info!/debug!/trace! is evaluated and formatted) unless FDX_NOLOG is set, in
-    // which case no logger is installed at all, as in a program that never set one up.
+    // which case the level is chosen per case from its text: off for two cases in five (as in a program that never set a
+    // logger up), else errors only, warnings and errors, or everything down to info.
+    let _ = log::set_logger(&LOGGER);
     if std::env::var("FDX_NOLOG").is_err() {
-        let _ = log::set_logger(&LOGGER);
         log::set_max_level(log::LevelFilter::Trace);
+    } else {
+        log::set_max_level(log::LevelFilter::Off);
+        eval::ROTATE_LOG_LEVEL.store(true, std::sync::atomic::Ordering::Relaxed);
     }
 
     let args: Vec<String> = std::env::args().collect();
@@ -129,7 +144,7 @@ fn main() {
             let line = line.unwrap();
             writeln!(out, "{}", eval::eval_case(&line)).unwrap();
         }
-        return;
+        return 0;
     }
     if args.len() >= 3 && args[1] == "gen" {
         let prop = args[2].clone();
@@ -222,8 +237,8 @@ fn main() {
         );
         s.push_str("]}");
         std::fs::write(format!("{}/stats.json", out), s).unwrap();
-        return;
+        return 0;
     }
     eprintln!("usage: fdx gen <PROP> [--tier T] [--seed N] [--out DIR] | fdx run");
-    std::process::exit(2);
+    2
 }
